@@ -403,7 +403,9 @@ func init() {
 					}
 				}
 			}
-			if mv, isFld := maxO.(*types.Var); !okMax && len(bounded) > 0 && isFld && mv.IsField() && maxO == maxFld {
+			mv, isFld := maxO.(*types.Var)
+			countersAreFields := isFld && mv.IsField() && maxO == maxFld
+			if !okMax && len(bounded) > 0 && (countersAreFields || len(finite) > 0) {
 				// the counters ARE the fields of the result (`var spec aritySpec; spec.max++ …;
 				// if sawRest || sawKey { spec.max = unbounded }; return spec`): the counted value
 				// leaves the function only past the overwrite or over an edge entailing
@@ -414,7 +416,9 @@ func init() {
 						return false
 					}
 					for i, l := range as.Lhs {
-						if identObjOrSel(info, l) == maxO {
+						// ... or one composite `spec := aritySpec{min: required, max: named}` whose max
+						// field is overwritten (`spec.max = -1`) before the value is stored in the table
+						if o := identObjOrSel(info, l); o == maxO || o == types.Object(maxFld) {
 							if k, okc := intConst(info, as.Rhs[i]); okc && k == -1 {
 								return true
 							}
@@ -423,6 +427,19 @@ func init() {
 					return false
 				})
 				rets := fc.blocksWith(func(n ast.Node) bool {
+					if as, ok := n.(*ast.AssignStmt); ok && !countersAreFields {
+						// the store of the finished value into the table
+						for _, l := range as.Lhs {
+							if ie, ok := ast.Unparen(l).(*ast.IndexExpr); ok {
+								if tv, ok := info.Types[ie.X]; ok {
+									if _, isMap := tv.Type.Underlying().(*types.Map); isMap {
+										return true
+									}
+								}
+							}
+						}
+						return false
+					}
 					rs, ok := n.(*ast.ReturnStmt)
 					if !ok || len(rs.Results) == 0 {
 						return false
